@@ -522,6 +522,42 @@ def check_hbar_outcomes(res):
     return res
 
 
+# ----------------------------------------------------------------------------- post-selection that cannot be honoured must be refused
+def check_select_refusals(res):
+    """a selected outcome is either honoured (returned value == selected value) or refused with an error - on every simulator,
+    for every measurement type, for the selected values 0 and non-zero, with one and with several shots"""
+    meas = [("MeasureHomodyne", lambda sel: ops.MeasureHomodyne(0.0, select=sel), [0.0, 0.3]),
+            ("MeasureHeterodyne", lambda sel: ops.MeasureHeterodyne(select=sel), [0.0, 0.3 - 0.5j]),
+            ("MeasureFock", lambda sel: ops.MeasureFock(select=sel), [0, 1]),
+            ("MeasureThreshold", lambda sel: ops.MeasureThreshold(select=sel), [0, 1])]
+    for backend in ("gaussian", "bosonic", "fock"):
+        for name, mk, sels in meas:
+            for sel in sels:
+                for shots in (1, 3):
+                    res.n += 1
+                    res.nt += 1
+                    case = {"select_refusal": True, "backend": backend, "meas": name, "select": [np.real(sel), np.imag(sel)], "shots": shots}
+                    prog = sf.Program(2)
+                    with prog.context as q:
+                        ops.S2gate(0.8, 0.0) | (q[0], q[1])
+                        mk(sel) | q[0]
+                    try:
+                        with warnings.catch_warnings():
+                            warnings.simplefilter("ignore")
+                            with Chooser((), default_menu):
+                                r = sf.Engine(backend, backend_options={"cutoff_dim": 8} if backend == "fock" else None).run(prog, shots=shots)
+                    except Exception:  # refused (NotImplementedError and the like): an allowed outcome
+                        res.stats[f"select_refused:{backend}:{name}"] += 1
+                        continue
+                    S = np.asarray(r.samples)
+                    zero = "zero" if sel == 0 else "nonzero"
+                    if S.ndim != 2 or S.shape[0] != shots:
+                        res.violation(f"C06|select|rows-per-shot|{backend}|{name}|{zero}", f"{name}(select={sel}) on {backend} with shots={shots} was accepted and returned samples of shape {S.shape} (one row per shot expected)", case)
+                    elif np.max(np.abs(S[:, 0] - sel)) > 1e-9:
+                        res.violation(f"C06|select|ignored|{backend}|{name}|{zero}", f"{name}(select={sel}) on {backend} with shots={shots} was accepted but returned {S[:, 0].tolist()} (the selected outcome is neither returned nor refused)", case)
+    return res
+
+
 # ----------------------------------------------------------------------------- engine-level sample collation
 def check_collation(n, res):
     for k in range(1, n + 1):
@@ -633,6 +669,7 @@ def run(ctx):
     check_collation(3, r)
     ctx.add(r)
     ctx.add(check_hbar_outcomes(Res()))
+    ctx.add(check_select_refusals(Res()))
     ctx.cov.update({"states": states, "transitions": ctx.n, "traces_validated_against_impl": ctx.n, "evaluations": ctx.n, "distinct_nontrivial": ctx.nt})
     ctx.assumptions += [
         "numpy.random and the thewalrus samplers are owned by the harness; what is decided is which distribution the code asks its random source for and what it does with each answer - not that numpy/thewalrus draw from that distribution",
@@ -643,6 +680,9 @@ def run(ctx):
 
 def replay(case):
     res = Res()
+    if case.get("select_refusal"):
+        r = check_select_refusals(Res())
+        return [(s, w) for s, w, c in r.viol if all(c[k] == case[k] for k in ("backend", "meas", "select", "shots"))]
     if case.get("hbar_outcomes"):
         r = check_hbar_outcomes(Res())
         return [(s, w) for s, w, c in r.viol if all(c[k] == case[k] for k in ("hbar", "backend", "phi", "x"))]
